@@ -54,14 +54,22 @@ class Gen:
         return self.rng.randrange(self.nev)
 
     def script(self, nops=20, effects=0.0, enqueue=0.0, fail=0.0, reads=False, stop=0.3, restart=0.0,
-               effect_kinds='GANX', effect_targets='sr', weights=None, cg_seed=True):
+               effect_kinds='GANX', effect_targets='sr', weights=None, cg_seed=True, start_effects=True):
         r = self.rng
         self.next_id = 1
         toks = []
+        self.start_effects = start_effects
         if cg_seed:
             toks.append('K%x' % r.getrandbits(48))
         if reads:
             toks.append('R1')
+        if effects and start_effects and r.random() < effects:
+            # effects that fire during start() (initial entry behaviours)
+            cands = [s for s in self.sites if s[0] == 'N']
+            for _k in range(r.choice([1, 1, 2])):
+                kind, site = r.choice(cands)
+                toks.append('E%s:%s:1:%s:%s:%d:%d' % (kind, site, r.choice('ppq'), r.choice(effect_targets),
+                                                     self.ev(weights), self.fresh_id()))
         toks.append('S')
         running = True
         for _ in range(nops):
